@@ -148,8 +148,10 @@ def run(ck: Check) -> None:
             ck.violation("a conversion path among bytes / hex / key objects does not return the same value", {"seed": seed.hex()}, "conversion-roundtrip")
     # key files
     d = impl.scratch_dir()
-    for i in range(12):
-        name = os.path.join(d, "keytest%d" % (i % 4))       # names are reused: later rounds write over the files of earlier ones
+    written = {}
+    for i in range(20):
+        # names are reused (later rounds write over the files of earlier ones) and take the shapes people give key files: dotted, versioned, spaced, non-ASCII
+        name = os.path.join(d, ["keytest0", "root.v2", "key_mgr.2024", "a.b.c", "pkg mgr", "cl\u00e9", "root.v1", ".hidden", "name.pri", "UPPER.Key"][i % 10])
         prior = "fresh"
         if i % 3 == 1:
             # files of that name already exist and are longer (a hex-encoded key file, as the CLI reads) or shorter
@@ -172,3 +174,14 @@ def run(ck: Check) -> None:
         if not (P.is_equivalent_to(priv, p2) and Pub.is_equivalent_to(pub, pub2) and Pub.to_bytes(p2.public_key()) == Pub.to_bytes(pub2)
                 and open(name + ".pri", "rb").read() == P.to_bytes(priv) and open(name + ".pub", "rb").read() == Pub.to_bytes(pub)):
             ck.violation("keys written to key files do not load back as equivalent keys", {"name": name}, "keyfiles")
+        written[name] = Pub.to_bytes(pub)
+    # key pairs written under different names do not disturb each other
+    for name, pb in written.items():
+        ck.oracle_checks += 1
+        try:
+            _, pub3 = impl.common.keyfiles_to_keys(name)
+            same = Pub.to_bytes(pub3) == pb
+        except Exception:  # noqa: BLE001
+            same = False
+        if not same:
+            ck.violation("a key pair written under one name was disturbed by key pairs written under other names", {"name": os.path.basename(name)}, "keyfiles-collide")
